@@ -188,6 +188,31 @@ pub fn run(ctx: &Arc<Ctx>) {
         }
     }
     ctx.cov("small_component_signatures", serde_json::json!(small.len()));
+    // call sequences over related inputs on one thread: two keys x two IDs, valid and altered, in every order
+    {
+        let mut items: Vec<Case> = Vec::new();
+        let msg = b"sequence message".to_vec();
+        for (d, id) in [(&ds[0].1, Some("alice@example.com".to_string())), (&ds[3].1, Some("alice@example.com".to_string())), (&ds[0].1, Some("carol@example.com".to_string())), (&ds[3].1, None)] {
+            let pk = sm2::g_mul(d);
+            let idb = id.as_ref().map(|s| s.as_bytes().to_vec()).unwrap_or_else(|| sm2::DEFAULT_ID.to_vec());
+            let e = sm2::digest_e(&idb, &pk, &msg);
+            let (r, s) = sm2::sign_with_k(d, &e, &ks[5].1).expect("sequence signature");
+            items.push(Case { pk: hex::encode(sm2::encode_point(&pk, false)), id: id.clone(), msg: hex::encode(&msg), sig: sig_bytes(&r, &s), label: "valid".into() });
+        }
+        // the signature of item 0 presented under the ID of item 2 (same key) and under the key of item 1 (same ID)
+        let mut cross1 = items[0].clone();
+        cross1.id = items[2].id.clone();
+        cross1.label = "id-changed".into();
+        let mut cross2 = items[0].clone();
+        cross2.pk = items[1].pk.clone();
+        cross2.label = "other-key".into();
+        let mut seqs: Vec<Vec<Case>> = permutations(&items);
+        for p in permutations(&[items[0].clone(), cross1.clone(), items[2].clone(), cross2.clone()]) {
+            seqs.push(p);
+        }
+        ctx.cov("related_input_sequences", serde_json::json!(seqs.len()));
+        run_sequences(ctx, &seqs, eval);
+    }
     ctx.note_bound(format!("{} base signatures, {} cases", nbase, cases.len()));
     ctx.sample(serde_json::to_value(&cases[1]).unwrap());
     ctx.sample(serde_json::to_value(&cases[cases.len() - 1]).unwrap());
